@@ -101,13 +101,20 @@ def c07_r3(ctx):
            detail=str(comps))
     fu = prog.method("searching.Searcher", "_find_unique", inherited=False)
     ctx.saw(fu)
-    loops = [n for n in ast.walk(fu.node) if isinstance(n, ast.For) and norm.canon(n.iter) == "uniques"]
+    # a loop or a comprehension over `uniques` whose body / element performs ONE lookup with exactly that pair
+    sites = []
+    for n in ast.walk(fu.node):
+        if isinstance(n, ast.For) and norm.canon(n.iter) == "uniques":
+            sites.append((n.target, n))
+        elif isinstance(n, (ast.GeneratorExp, ast.ListComp, ast.SetComp)) and len(n.generators) == 1 and norm.canon(n.generators[0].iter) == "uniques":
+            sites.append((n.generators[0].target, n.elt))
     ok = False
-    if len(loops) == 1:
+    if len(sites) == 1:
         U = pm.Alpha(fu)
-        calls = [c for c in norm.calls_in(loops[0]) if norm.call_name(c) in ("document_number", "document_numbers")]
-        ok = len(calls) == 1 and len(calls[0].keywords) == 1 and calls[0].keywords[0].arg is None and \
-            U.eq(loops[0].target, "(name, value)") and U.eq(calls[0].keywords[0].value, "{name: value}")
+        tgt, scope = sites[0]
+        calls = [c for c in norm.calls_in(scope) if norm.call_name(c) in ("document_number", "document_numbers")]
+        ok = len(calls) == 1 and len(calls[0].keywords) == 1 and calls[0].keywords[0].arg is None and not calls[0].args and \
+            U.eq(tgt, "(name, value)") and U.eq(calls[0].keywords[0].value, "{name: value}")
     ctx.ob(fu, ok, "each unique (field, value) pair is looked up on its own (OR semantics across unique fields)",
            detail="a single lookup with all pairs at once would require every unique value to match the same document" if not ok else "")
     bw = prog.method("writing.BufferedWriter", "update_document", inherited=False)
